@@ -108,15 +108,24 @@ class C19(PureCheck):
     def execute(self, inp):
         ev = dict(inp)
         if inp["op"] == "eq":
-            x, y = spelled(inp["x"]), spelled(inp["y"])
+            # every observation on operands of its own, built afresh (never rendered, unless this input is a warmed
+            # one): comparing must not depend on whether a value's terminal string was computed before
+            def pair():
+                return spelled(inp["x"]), spelled(inp["y"])
+            x, y = pair()
+            ev["eq"] = int(bool(x == y))
+            x, y = pair()
+            ev["req"] = int(bool(y == x))
+            x, y = pair()
+            ev["ne"] = int(bool(x != y))
+            x, y = pair()
+            ev["inset"] = int(y in {x})
+            x, y = pair()
+            ev["indict"] = int(y in {x: 1})
+            x, y = pair()
+            ev["heq"] = int(hash(x) == hash(y))
             ev["strx"] = enc.enc_text(str(x))
             ev["stry"] = enc.enc_text(str(y))
-            ev["eq"] = int(bool(x == y))
-            ev["req"] = int(bool(y == x))
-            ev["ne"] = int(bool(x != y))
-            ev["heq"] = int(hash(x) == hash(y))
-            ev["inset"] = int(y in {x})
-            ev["indict"] = int(y in {x: 1})
         else:
             f = enc.build_fmtstr(inp["f"])
             ns = fmtfuncs_ns()
